@@ -25,6 +25,13 @@ func init() {
 
 func runC18(c *eng.Ctx, tier string) {
 	p := c.P
+	// R-C18-5: "byte-identical to what was put, also after a restart" rests on
+	// put's numbering (the same-value short-cut compares with a version that
+	// exists), on the exact rollback of a failed save, and on the file-backed
+	// client using the decoded bytes unaltered
+	includeOnly(c, "R-C18-5", func(sc *eng.Ctx) { runC02(sc, "quick") }, "R-C02-2", "R-C02-3")
+	includeOnly(c, "R-C18-5", func(sc *eng.Ctx) { runC04(sc, "quick") }, "R-C04-3")
+	includeOnly(c, "R-C18-5", func(sc *eng.Ctx) { c13Wire(sc) }, "R-C13-4")
 	// R-C18-1
 	for _, row := range []struct{ name, want string }{
 		{"PutRequest", `{"Name":string "Value":base64}`},
